@@ -11,7 +11,7 @@ from .c04 import designation_family
 
 LEVEL = 'other'
 EXPLANATION = (
-    "Static analysis. On the truth-functional fragment: (R1) every operator rule is exact on all of V^arity under the logic's own tables (C04.R1, both directions) and every operator shape has a rule (C04.R4); (R2) closure is exact on literal sets (C05); (R3) local-expansion termination: for every logic and every shape op(A,B) (negated or not, each designation) the abstract expansion with opaque operands, using the extracted schemas, reaches only A, ~A, B, ~B in bounded depth without repeating a (term, designation) on a path, and every operator rule ticks its node -- by induction on sentence size this is termination of the fragment; (R4) quit flags are produced only by the quantifier and modal templates, never by operator rules. The step count of a particular proof is not decided. (R5) FilterNodeCache folded: an unticked filter-passing node stays a candidate.")
+    "Static analysis. On the truth-functional fragment: (R1) every operator rule is exact on all of V^arity under the logic's own tables (C04.R1, both directions) and every operator shape has a rule (C04.R4); (R2) closure is exact on literal sets (C05); (R3) local-expansion termination: for every logic and every shape op(A,B) (negated or not, each designation) the abstract expansion with opaque operands, using the extracted schemas, reaches only A, ~A, B, ~B in bounded depth without repeating a (term, designation) on a path, and every operator rule ticks its node -- by induction on sentence size this is termination of the fragment; (R4) quit flags are produced only by the quantifier and modal templates, never by operator rules. The step count of a particular proof is not decided. (R5) FilterNodeCache folded: an unticked filter-passing node stays a candidate. (R6) Rule.target and the group application folded for every value of the search options: a rule with a target is never passed over.")
 TRUSTED = ['CPython ast', 'sa.schema / sa.tables extractors']
 ASSUMPTIONS = ['FilterHelper drops ticked nodes from the candidate set (ignore_ticked, checked per rule class)']
 
